@@ -9,6 +9,8 @@ enum { R_ADD, R_SUB, R_MUL, R_DIV, R_FMAX, R_FMIN, R_FDIM, R_BIN_COUNT };
 enum { R_SQRT, R_CEIL, R_FLOOR, R_TRUNC, R_ROUND, R_NEARBYINT, R_RINT, R_LOGB, R_FRAC, R_UN_COUNT };
 uint32_t ref32_bin(int op, uint32_t a, uint32_t b);
 uint64_t ref64_bin(int op, uint64_t a, uint64_t b);
+uint32_t ref32_fma(uint32_t a, uint32_t b, uint32_t c);   // single rounding of a*b+c (used to classify cases, not as an oracle)
+uint64_t ref64_fma(uint64_t a, uint64_t b, uint64_t c);
 uint32_t ref32_un(int op, uint32_t a);
 uint64_t ref64_un(int op, uint64_t a);
 uint32_t ref32_frexp(uint32_t a, int* e);
